@@ -13,17 +13,23 @@ type bddNode struct {
 }
 
 type BDD struct {
-	nodes   []bddNode
-	unique  map[bddNode]int32
-	andMemo map[[2]int32]int32
-	notMemo map[int32]int32
-	tmemo   map[int]int32 // term id -> bdd
-	atomVar map[int]int32 // atom term id -> variable index
-	eqGroup map[int][]eqAtom
-	nvars   int32
-	budget  int
-	blown   bool
+	nodes     []bddNode
+	unique    map[bddNode]int32
+	andMemo   map[[2]int32]int32
+	notMemo   map[int32]int32
+	tmemo     map[int]int32 // term id -> bdd
+	atomVar   map[int]int32 // atom term id -> variable index
+	eqGroup   map[int][]eqAtom
+	nvars     int32
+	budget    int
+	blown     bool
+	callLimit int
+	skip      map[int]bool
+	opaque    map[int]bool
+	stack     []*Term
 }
+
+type bddAbort struct{}
 
 type eqAtom struct {
 	k uint64
@@ -50,9 +56,8 @@ func (b *BDD) mk(v, lo, hi int32) int32 {
 	if id, ok := b.unique[n]; ok {
 		return id
 	}
-	if len(b.nodes) > b.budget {
-		b.blown = true
-		return bddTrue // give up: "true" is the safe answer for an unsat oracle
+	if len(b.nodes) > b.callLimit {
+		panic(bddAbort{})
 	}
 	id := int32(len(b.nodes))
 	b.nodes = append(b.nodes, n)
@@ -169,6 +174,17 @@ func (b *BDD) of(t *Term) int32 {
 	if r, ok := b.tmemo[t.id]; ok {
 		return r
 	}
+	if b.opaque[t.id] {
+		// a sub-term whose expansion blew the budget before: treated as an independent atom
+		if v, ok := b.atomVar[t.id]; ok {
+			return b.varNode(v)
+		}
+		v := b.newVar()
+		b.atomVar[t.id] = v
+		return b.varNode(v)
+	}
+	b.stack = append(b.stack, t)
+	defer func() { b.stack = b.stack[:len(b.stack)-1] }()
 	var r int32
 	switch t.op {
 	case OpConst:
@@ -212,9 +228,12 @@ func (b *BDD) of(t *Term) int32 {
 }
 
 var theBDD *BDD
-var bddStats struct{ calls, cut int }
+var bddStats struct{ calls, cut, aborts, resets int }
 
 // semFalse: is the Bool term propositionally unsatisfiable (atoms independent, eq-atoms exclusive)?
+// Each call may create at most bddPerCall new nodes; a term that exceeds it is remembered and skipped.
+const bddPerCall = 12000
+
 func semFalse(t *Term) bool {
 	if t.IsFalse() {
 		return true
@@ -224,18 +243,51 @@ func semFalse(t *Term) bool {
 	}
 	if theBDD == nil {
 		theBDD = NewBDD()
+		theBDD.skip = map[int]bool{}
+		theBDD.opaque = map[int]bool{}
 	}
-	if theBDD.blown {
+	b := theBDD
+	if b.skip[t.id] || bddStats.aborts > 40 {
+		// too many blow-ups: the guards of this harness are not BDD-friendly; stop trying
 		return false
+	}
+	if len(b.nodes) > b.budget {
+		// global reset (keeps the skip set)
+		skip, opq := b.skip, b.opaque
+		theBDD = NewBDD()
+		theBDD.skip = skip
+		theBDD.opaque = opq
+		b = theBDD
+		bddStats.resets++
 	}
 	bddStats.calls++
-	r := theBDD.of(t)
-	if theBDD.blown {
-		return false
-	}
-	if r == bddFalse {
+	b.callLimit = len(b.nodes) + bddPerCall
+	res := false
+	func() {
+		defer func() {
+			if r := recover(); r != nil {
+				if _, ok := r.(bddAbort); ok {
+					// make the innermost compound sub-terms under expansion opaque for the future
+					n := len(b.stack)
+					for i := n - 1; i >= 0 && i >= n-2; i-- {
+						if b.stack[i] != t {
+							b.opaque[b.stack[i].id] = true
+						}
+					}
+					if n <= 1 {
+						b.skip[t.id] = true
+					}
+					b.stack = b.stack[:0]
+					bddStats.aborts++
+					return
+				}
+				panic(r)
+			}
+		}()
+		res = b.of(t) == bddFalse
+	}()
+	if res {
 		bddStats.cut++
-		return true
 	}
-	return false
+	return res
 }
